@@ -327,6 +327,10 @@ func (e ConstructorInvocationError) Unwrap() error {
 	return e.Cause
 }
 
+// ConstructionFailed marks the error as the failure of a registered service
+// (see reflection.ConstructionError).
+func (e ConstructorInvocationError) ConstructionFailed() {}
+
 // ConstructorPanicError indicates a constructor panicked during invocation.
 // It captures the panic value and stack trace for debugging.
 type ConstructorPanicError struct {
@@ -354,6 +358,10 @@ func (e ConstructorPanicError) Error() string {
 
 	return b.String()
 }
+
+// ConstructionFailed marks the error as the failure of a registered service
+// (see reflection.ConstructionError).
+func (e ConstructorPanicError) ConstructionFailed() {}
 
 // BuildError wraps errors that occur during provider building
 type BuildError struct {
